@@ -442,6 +442,25 @@ def check_state(ctx, tag, loc, inst, fields):
         if fields and any(it[0] == "for" for it in ps.items) and not writes:
             ok = False
         other = [e for e in ps.events if e.kind in ("attrwrite", "itemwrite")]
+        # nothing of the class's own initialisation is run again: the state
+        # holds the fields as the constructor left them, and a __post_init__
+        # that converts its arguments (an index base, a unit) would convert
+        # them a second time
+        rerun = [c for it_ in ps.items if it_[0] in ("stmt", "return")
+                 and isinstance(it_[1], ast.AST) for c in ast.walk(it_[1])
+                 if (isinstance(c, ast.Attribute) and c.attr in (
+                     "__post_init__", "__init__") and not (
+                         isinstance(c.value, ast.Name) and
+                         c.value.id == "Expression")) or (
+                     isinstance(c, ast.Constant) and c.value in (
+                         "__post_init__", "__init__"))]
+        ctx.ob(f"{tag}/setstate/no-reinitialisation", not rerun, loc,
+               "restoring the state runs no initialisation code" if not rerun
+               else "generated __setstate__ runs __post_init__ / __init__ "
+               "again on the restored fields: a user node class whose "
+               "__post_init__ converts its arguments (or takes an InitVar) "
+               "comes back from a pickle as a different expression, or not at "
+               "all")
         ctx.ob(f"{tag}/setstate/fields-only", ok and not other, loc,
                "restores exactly the fields, pairing names with state in order"
                if ok and not other else
